@@ -655,6 +655,26 @@ Definition step_ok (p : sprog) (nck : list N) (s : instr) : bool :=
       | _, _ => true
       end).
 
+(* Operand positions whose wires carry a value the step reads (the other
+   positions are compile-time counts read through ConstInt). *)
+Definition value_positions (o : opc) (n : nat) : list nat :=
+  match o with
+  | OConcat | OAmov => [0; 1]
+  | OLshift | ORshift | OSrshift | OSlice | OMov | OSmov => [0]
+  | OGen | ORet | OCirc => seq 0 n
+  | OGC => []
+  end.
+
+(* every constant operand in a value position is one of prog.Constants (a
+   constant that is not gets wire ids from AssignedIDs that nothing ever
+   writes: possibly recycled ids with stale values) *)
+Definition consts_tabled (p : sprog) (steps : list instr) : bool :=
+  forallb (fun s =>
+    forallb (fun j => match nth_error (iin s) j with
+                      | Some i => negb (vconst i) || mem (vid i) (map fst (sp_consts p))
+                      | None => true
+                      end) (value_positions (iop s) (length (iin s)))) steps.
+
 Definition wf_prog (p : sprog) (steps : list instr) : bool :=
   wf_ssa (map fst (sp_args p)) steps
   && nodupb (map fst (sp_args p) ++ const_keys p)
